@@ -12,7 +12,7 @@ Part 1, `Geom.Transform` (model `GeomTransform.lean` of /repo/transform.go, spec
 * `C10_vertex_i`        index form of "i-th vertex".
 * `C10_nil_identity`    a nil transformer is the identity.
 * `C10_error_no_panic`  if `t` fails first on vertex `i`, every type returns exactly that error; never a panic.
-* `C10_input_unchanged_partial`  on the memory model of `Mem.lean` (point-slice types only).
+* `C10_input_unchanged`  on the memory model of `Mem.lean` (all eight methods, any memory layout).
 Part 2, transformers (model `Transformer.lean` of proj/transform.go + adjust_axis.go):
 * `C10_pure`            history independence over any pool of transformers sharing SRs.
 * `C10_step_state_eq`   a call leaves a settled heap and the captured pair unchanged.
@@ -109,29 +109,81 @@ end GeomTransform
 
 section InputUnchanged
 variable {E α : Type}
+open Mem
 
-/-- **C10_input_unchanged_partial** (clause "leaves the input untouched"), on the memory model of
-`Mem.lean`, for `LineString.Transform` — the loop shared by `MultiPoint` (through `Point.Transform`) and
-by every ring of a `Polygon`: whatever the transformer does (success, error on any vertex), every
-backing array that existed before the call, the input's included, is bit-for-bit what it was, and the
-result of a successful call is a new array, not the input's.
-FULL STATEMENT NOT PROVED: the same for the nested types (`[]LineString`, `[]Path`, `[]Polygon`,
-`[]Geom` headers pointing to further arrays) and for `*Bounds`; there the clause is checked on the real
-slices by the correspondence run (input compared before/after and after scribbling over the output). -/
-theorem C10_input_unchanged_partial (zero : Pt α) (t : TF E α) (a : Nat) (m : Mem.Mem α) :
-    (Mem.lineStringM zero t a m).1.take m.length = m ∧
-    (∀ a2, (Mem.lineStringM zero t a m).2 = .ok a2 → a2 = m.length ∧ a < a2) :=
-  Mem.lineStringM_mem zero t a m
+theorem inv_initial (m : Mem α) : Inv m.bound m := by
+  refine ⟨?_, ?_, ?_⟩ <;>
+  · intro a arr hka hget
+    have : a < _ := (List.getElem?_eq_some_iff.mp hget).1
+    simp [Mem.bound] at hka; omega
 
-/-- non-vacuity: a two-vertex line at address 0, swapped coordinates; input array kept, result at 1 -/
+/-- **C10_input_unchanged** (clause "leaves the input untouched"), on the memory model `Mem.lean` of all
+eight `Transform` methods.  For EVERY memory `m` (any layout: members sharing backing arrays, windows of
+one buffer, prefixes of one another, even ill-formed headers), every geometry value `g` in it, every
+transformer or nil, every recursion budget:
+1. on every path — success, transformer error at any vertex, panic — every backing array that existed
+   before the call (points, slice headers of both levels, interface arrays) and every `Bounds` struct is
+   exactly what it was; memory only grows;
+2. a nil transformer returns the receiver itself and touches nothing (the documented aliasing case);
+3. with a non-nil transformer a successful result refers only to arrays allocated during the call
+   (`fresh`), and so does every header stored in any new array (`Inv`): nothing reachable from the
+   result is shared with anything that existed before. -/
+theorem C10_input_unchanged (zero : Pt α) (fuel : Nat) (t : Option (TF E α)) (g : MGeom α) (m : Mem α) :
+    ((transformTop zero fuel t g m).1.pts.take m.pts.length = m.pts ∧
+     (transformTop zero fuel t g m).1.paths.take m.paths.length = m.paths ∧
+     (transformTop zero fuel t g m).1.polys.take m.polys.length = m.polys ∧
+     (transformTop zero fuel t g m).1.geoms.take m.geoms.length = m.geoms ∧
+     (transformTop zero fuel t g m).1.bnds = m.bnds) ∧
+    (t = none → (transformTop zero fuel t g m).1 = m ∧
+      ((transformTop zero fuel t g m).2 = .ok g ∨ (transformTop zero fuel t g m).2 = .error (.panic .nilDeref))) ∧
+    (∀ t', t = some t' → ∀ g', (transformTop zero fuel t g m).2 = .ok g' →
+      g'.fresh m.bound ∧ Inv m.bound (transformTop zero fuel t g m).1) := by
+  have hk : m.bound.le m := ⟨Nat.le_refl _, Nat.le_refl _, Nat.le_refl _, Nat.le_refl _⟩
+  have key : ∀ m' : Mem α, Frozen m.bound m m' →
+      m'.pts.take m.pts.length = m.pts ∧ m'.paths.take m.paths.length = m.paths ∧
+      m'.polys.take m.polys.length = m.polys ∧ m'.geoms.take m.geoms.length = m.geoms ∧ m'.bnds = m.bnds := by
+    intro m' f
+    have := f.pts; have := f.paths; have := f.polys; have := f.geoms
+    simp [Mem.bound] at *
+    exact ⟨f.pts |>.trans (by simp [Mem.bound]), f.paths.trans (by simp [Mem.bound]),
+      f.polys.trans (by simp [Mem.bound]), f.geoms.trans (by simp [Mem.bound]), f.bnds⟩
+  cases t with
+  | none =>
+    refine ⟨?_, ?_, ?_⟩
+    · cases g <;> simp [transformTop]
+    · intro _; cases g <;> simp [transformTop]
+    · intro t' h; cases h
+  | some t =>
+    by_cases hg : ∃ x, g = x ∧ (match x with | MGeom.nil => True | _ => False)
+    · obtain ⟨x, rfl, hx⟩ := hg
+      cases g <;> simp at hx
+      simp [transformTop]
+    · have hnil : (transformTop zero fuel (some t) g m) = transformM zero t fuel g m := by
+        cases g <;> first | rfl | (exfalso; exact hg ⟨_, rfl, trivial⟩)
+      rw [hnil]
+      obtain ⟨hok, hfresh⟩ := transformM_ok m.bound zero t fuel g m hk
+      refine ⟨key _ hok.frozen, ?_, ?_⟩
+      · intro h; cases h
+      · intro t' _ g' hg'
+        exact ⟨hfresh g' hg', hok.inv (inv_initial m)⟩
+
+/-- non-vacuity / layout with shared memory: a polygon whose two rings are overlapping windows
+(`buf[0:2]`, `buf[1:3]`) of ONE buffer; coordinates swapped by the transformer -/
+def sharedMem : Mem Nat :=
+  { pts := [[⟨1, 2⟩, ⟨3, 4⟩, ⟨5, 6⟩]], paths := [[⟨0, 0, 2⟩, ⟨0, 1, 2⟩]], polys := [], geoms := [], bnds := [] }
+
 example :
-    Mem.lineStringM (E := Nat) (α := Nat) ⟨0, 0⟩ (fun p => .ok ⟨p.y, p.x⟩) 0 [[⟨1, 2⟩, ⟨3, 4⟩]] =
-      ([[⟨1, 2⟩, ⟨3, 4⟩], [⟨2, 1⟩, ⟨4, 3⟩]], .ok 1) := by rfl
-/-- … and with a transformer failing on the second vertex the input array is still intact -/
+    let r := transformTop (E := Nat) ⟨0, 0⟩ 3 (some fun p => .ok ⟨p.y, p.x⟩) (.polygon ⟨0, 0, 2⟩) sharedMem
+    r.1.pts = [[⟨1, 2⟩, ⟨3, 4⟩, ⟨5, 6⟩], [⟨2, 1⟩, ⟨4, 3⟩], [⟨4, 3⟩, ⟨6, 5⟩]] ∧
+    r.1.paths = [[⟨0, 0, 2⟩, ⟨0, 1, 2⟩], [⟨1, 0, 2⟩, ⟨2, 0, 2⟩]] := by
+  constructor <;> rfl
+
+/-- … and with a transformer failing on the last vertex the shared input buffer is still intact -/
 example :
-    Mem.lineStringM (E := Nat) (α := Nat) ⟨0, 0⟩ (fun p => if p.x = 3 then .error 7 else .ok ⟨p.y, p.x⟩) 0
-        [[⟨1, 2⟩, ⟨3, 4⟩]] =
-      ([[⟨1, 2⟩, ⟨3, 4⟩], [⟨2, 1⟩, ⟨0, 0⟩]], .error (.err 7)) := by rfl
+    let r := transformTop (E := Nat) ⟨0, 0⟩ 3 (some fun p => if p.x = 5 then .error 7 else .ok ⟨p.y, p.x⟩)
+      (.polygon ⟨0, 0, 2⟩) sharedMem
+    r.1.pts = [[⟨1, 2⟩, ⟨3, 4⟩, ⟨5, 6⟩], [⟨2, 1⟩, ⟨4, 3⟩], [⟨4, 3⟩, ⟨0, 0⟩]] := by
+  rfl
 
 end InputUnchanged
 
